@@ -580,6 +580,9 @@ pub fn models(tier: Tier, seed: u64) -> Vec<Box<dyn DynModel>> {
         bounded(M04::<Bls12381G1Impl>::new(tier, seed), 6),
         bounded(M04::<Bls12381G2Impl>::new(tier, seed), 6),
     ]
+    .into_iter()
+    .chain(crate::props::tsurf::models("C04", tier, seed))
+    .collect()
 }
 
 pub fn describe(tier: Tier, r: &mut Report) {
